@@ -19,6 +19,8 @@
 import math
 from enum import IntEnum
 
+import numpy as np
+
 from .numeric_util import round_away_zero
 
 
@@ -75,6 +77,11 @@ def elementwise_mul_scale(input_scale, input2_scale, output_scale):
 
 # Simplified version of calculating elementwise Add/Sub scales
 def simplified_elementwise_add_sub_scale(input1_scale, input2_scale, output_scale, input_shift=16):
+    # The scales are float32 values, the rescale factors are calculated in double precision as in the reference (with
+    # NumPy 2 promotion rules float32 * int stays float32)
+    input1_scale = np.double(input1_scale)
+    input2_scale = np.double(input2_scale)
+    output_scale = np.double(output_scale)
     max_input_scale = max(input1_scale, input2_scale)
 
     input1_rescale = input1_scale * (1 << input_shift) / (2 * max_input_scale)
